@@ -57,6 +57,9 @@ def kind : Kind where
   σ := St
   init := fun ps => match ps with
     | [.int c] => some { cap := c }
+    -- `lru <cap> str`: the same histories on an LRUCache[int, string] whose values are an injective image of the int
+    -- values (0 is the empty string, the zero value of the type); the harness translates them back
+    | [.int c, .atom _] => some { cap := c }
     | _ => none
   step := fun st l =>
     if l.op == "create" then
